@@ -6,6 +6,7 @@ import (
 	"encoding/binary"
 	"fmt"
 	"net"
+	"sync"
 	"sync/atomic"
 	"time"
 
@@ -65,6 +66,7 @@ type IPPool struct {
 	gateway   net.IP
 	available []net.IP
 	allocated map[string]net.IP // session ID -> IP
+	mu        sync.Mutex        // the receive loop and the cleanup loop both use the pool
 }
 
 // NewIPPool creates a new IP pool
@@ -104,6 +106,9 @@ func NewIPPool(network string, gateway string) (*IPPool, error) {
 
 // Allocate allocates an IP for a session
 func (p *IPPool) Allocate(sessionID string) net.IP {
+	p.mu.Lock()
+	defer p.mu.Unlock()
+
 	if ip, ok := p.allocated[sessionID]; ok {
 		return ip
 	}
@@ -118,6 +123,9 @@ func (p *IPPool) Allocate(sessionID string) net.IP {
 
 // Release releases an IP back to the pool
 func (p *IPPool) Release(sessionID string) {
+	p.mu.Lock()
+	defer p.mu.Unlock()
+
 	if ip, ok := p.allocated[sessionID]; ok {
 		delete(p.allocated, sessionID)
 		p.available = append(p.available, ip)
@@ -936,11 +944,7 @@ func (s *Server) cleanupLoop(ctx context.Context) {
 		case <-ctx.Done():
 			return
 		case <-ticker.C:
-			timeout := s.sessionTimeout
-			if timeout == 0 {
-				timeout = 5 * time.Minute
-			}
-			removed := s.sessions.CleanupExpired(timeout)
+			removed := s.cleanupExpiredSessions()
 			if removed > 0 {
 				s.logger.Info("Cleaned up expired PPPoE sessions",
 					zap.Int("count", removed),
@@ -948,6 +952,31 @@ func (s *Server) cleanupLoop(ctx context.Context) {
 			}
 		}
 	}
+}
+
+// cleanupExpiredSessions ends every session that has been idle for longer than
+// the session timeout: like any other end of a session this returns its address
+// to the pool, it does not just drop the session from the table.
+func (s *Server) cleanupExpiredSessions() int {
+	timeout := s.sessionTimeout
+	if timeout == 0 {
+		timeout = 5 * time.Minute
+	}
+
+	var removed int
+	now := time.Now()
+	for _, session := range s.sessions.GetAllSessions() {
+		session.mu.RLock()
+		inactive := now.Sub(session.LastActivity) > timeout
+		session.mu.RUnlock()
+
+		if inactive {
+			s.endSession(session)
+			removed++
+		}
+	}
+
+	return removed
 }
 
 // GetSessionCount returns the number of active sessions
